@@ -27,13 +27,18 @@ ASSUMPTIONS = [
 TRUSTED_BASE = ["pvc (own VC generator: /verif/pvc)", "z3 5.1", "python ast module"]
 
 
+NON_DEFAULT = {"max_dt_sec": 0.05, "common_subexpression_elimination": False, "extra_validation": True}
+
+
 def native(run, cases):
     problems = []
     for seed, rows, ns, k, ke in cases:
         run.native_runs += 1
-        p, info = sklearn_native.transform_problems(seed, rows, ns, k, ke)
+        # every other estimator is configured away from the defaults (max_dt_sec, CSE off, extra validation on)
+        extra = NON_DEFAULT if (len(problems) + run.native_runs) % 2 == 0 else None
+        p, info = sklearn_native.transform_problems(seed, rows, ns, k, ke, config_extra=extra)
         for x in p:
-            problems.append((x, {"seed": seed, "rows": rows, "n_sensors": ns, "controls": k, "k_edit": ke}))
+            problems.append((x, {"seed": seed, "rows": rows, "n_sensors": ns, "controls": k, "k_edit": ke, "config_extra": extra}))
     return problems
 
 
@@ -52,10 +57,10 @@ def check(run):
             run.findings.append(Finding("C16.py.native_hand_run", p.split("[")[0][:30], p, {"language": "python", "inputs": inp, "oracle_verdict": p}, True))
     # an INTEGER-typed data matrix (always run): a finite data matrix like any other
     run.native_runs += 1
-    ip, info = sklearn_native.transform_problems(run.seed, 5, 2, 2, None, integer_data=True)
-    run.bounded.append({"what": "native: transform / mahalanobis / score of a data matrix of integer dtype vs the exported filter run by hand on the same values", "bound": "1 estimator x 5 rows", "failures": len(ip), "counted_as_proved": False})
+    ip, info = sklearn_native.transform_problems(run.seed, 5, 2, 2, None, integer_data=True, config_extra=NON_DEFAULT)
+    run.bounded.append({"what": "native: transform / mahalanobis / score of a data matrix of integer dtype, estimator configured away from the defaults (max_dt_sec 0.05, CSE off, extra validation), vs the exported filter run by hand on the same values", "bound": "1 estimator x 5 rows", "failures": len(ip), "counted_as_proved": False})
     for p in ip[:1]:
-        inp = {"seed": run.seed, "rows": 5, "n_sensors": 2, "controls": 2, "k_edit": None, "integer_data": True}
+        inp = {"seed": run.seed, "rows": 5, "n_sensors": 2, "controls": 2, "k_edit": None, "integer_data": True, "config_extra": NON_DEFAULT}
         problems.append((p, inp))
         run.findings.append(Finding("C16.py.native_integer_matrix", "int-dtype", f"integer-typed data matrix: {p}", {"language": "python", "inputs": inp, "oracle_verdict": p}, True))
     # stateful: the same estimator transformed, reconfigured through set_params, transformed again (always run)
@@ -78,6 +83,6 @@ def replay_file(payload):
         p, info = sklearn_native.transform_sequence_problems(i.get("seed", 0))
         print("replay C16 (stateful sequence):", p[:2] or "every step equals the hand-run of the exported filter")
         return not p
-    p, info = sklearn_native.transform_problems(i["seed"], i["rows"], i["n_sensors"], i["controls"], i.get("k_edit"), integer_data=i.get("integer_data", False))
+    p, info = sklearn_native.transform_problems(i["seed"], i["rows"], i["n_sensors"], i["controls"], i.get("k_edit"), integer_data=i.get("integer_data", False), config_extra=i.get("config_extra"))
     print("replay C16:", p[:3] or "transform / mahalanobis / score equal the hand-run filter's NIS")
     return not p
